@@ -11,6 +11,7 @@ PTrace == <<1000, 1000, 1000, 1000, 1000, 1000>>
 One == 1
 Two == 2
 R2Trace == 16
+CfgCapOne == {<<1, 4, 2>>}
 P3   == <<3>>
 P4   == <<4>>
 CfgOne4 == {<<1, 4, 0>>}
